@@ -20,7 +20,10 @@ fn list(dir: &Path) -> Vec<PathBuf> {
 /// Files of the committed seed corpus and of saved crash artifacts for a target.
 pub fn saved_inputs(target: &str) -> Vec<PathBuf> {
     let mut v = list(Path::new(&format!("/verif/corpus/{target}")));
-    v.extend(list(Path::new(&format!("/verif/fuzz/artifacts/{target}"))));
+    v.extend(list(Path::new(&format!("/verif/fuzz/artifacts/{target}"))).into_iter().filter(|p| {
+        let n = p.file_name().map(|n| n.to_string_lossy().to_string()).unwrap_or_default();
+        !(n.starts_with("slow-unit-") || n.starts_with("timeout-") || n.starts_with("oom-"))
+    }));
     v
 }
 
@@ -69,6 +72,8 @@ pub fn run_jobs(target: &str, runs: u64, jobs: u32, seed: u64, max_len: u32, dic
             format!("-max_len={max_len}"),
             "-len_control=0".to_string(),
             "-print_final_stats=1".to_string(),
+            "-timeout=300".to_string(),
+            "-report_slow_units=120".to_string(),
             format!("-artifact_prefix={art_dir}/"),
         ];
         if let Some(d) = dict {
@@ -133,6 +138,15 @@ pub fn run_jobs(target: &str, runs: u64, jobs: u32, seed: u64, max_len: u32, dic
             tail = tail_of(&text);
         }
     }
-    let new_artifacts: Vec<PathBuf> = list(Path::new(&art_dir)).into_iter().filter(|p| !before.contains(p)).collect();
+    let mut new_artifacts: Vec<PathBuf> = vec![];
+    for p in list(Path::new(&art_dir)).into_iter().filter(|p| !before.contains(p)) {
+        let name = p.file_name().map(|n| n.to_string_lossy().to_string()).unwrap_or_default();
+        if name.starts_with("crash-") || name.starts_with("leak-") {
+            new_artifacts.push(p);
+        } else {
+            // slow-unit-*, timeout-*, oom-*: resource reports of the fuzzer, never a verdict
+            let _ = std::fs::remove_file(&p);
+        }
+    }
     Campaign { executed_units: executed, new_artifacts, log_tail: tail, ok }
 }
